@@ -312,7 +312,15 @@ func ruleAdmit(p *Program, r *Result) {
 					}
 					behind := func(fc *ssa.Call, passIdx int) bool {
 						iff, ok := fc.Block().Instrs[len(fc.Block().Instrs)-1].(*ssa.If)
-						if !ok || iff.Cond != ssa.Value(fc) {
+						if !ok {
+							return false
+						}
+						cond := iff.Cond
+						if u, isNot := cond.(*ssa.UnOp); isNot && u.Op == token.NOT {
+							cond = u.X
+							passIdx = 1 - passIdx
+						}
+						if cond != ssa.Value(fc) {
 							return false
 						}
 						s := fc.Block().Succs[passIdx]
@@ -343,18 +351,29 @@ func ruleAdmit(p *Program, r *Result) {
 				}
 				// deny==true edge and allow==false edge end the lookup without the scan
 				blockedOK := true
-				if iff, ok := denyCall.Block().Instrs[len(denyCall.Block().Instrs)-1].(*ssa.If); ok && iff.Cond == ssa.Value(denyCall) {
-					if blockReach(denyCall.Block().Succs[0], nil)[scan.Block()] {
-						blockedOK = false
+				// edgeWhen: the successor taken when call evaluates to val (the test may be written negated)
+				edgeWhen := func(call *ssa.Call, val bool) *ssa.BasicBlock {
+					iff, ok := call.Block().Instrs[len(call.Block().Instrs)-1].(*ssa.If)
+					if !ok {
+						return nil
 					}
-				} else {
+					cond := iff.Cond
+					if u, isNot := cond.(*ssa.UnOp); isNot && u.Op == token.NOT {
+						cond = u.X
+						val = !val
+					}
+					if cond != ssa.Value(call) {
+						return nil
+					}
+					if val {
+						return call.Block().Succs[0]
+					}
+					return call.Block().Succs[1]
+				}
+				if e := edgeWhen(denyCall, true); e == nil || blockReach(e, nil)[scan.Block()] {
 					blockedOK = false
 				}
-				if iff, ok := allowCall.Block().Instrs[len(allowCall.Block().Instrs)-1].(*ssa.If); ok && iff.Cond == ssa.Value(allowCall) {
-					if blockReach(allowCall.Block().Succs[1], nil)[scan.Block()] {
-						blockedOK = false
-					}
-				} else {
+				if e := edgeWhen(allowCall, false); e == nil || blockReach(e, nil)[scan.Block()] {
 					blockedOK = false
 				}
 				r.cond(order && blockedOK, "R-ADMIT", key+":order", p.Pos(denyCall.Pos()),
